@@ -97,8 +97,8 @@ def s_se3(n=1):
     return f
 
 
-def rot_branch(rng, b, add, lo=0.4, hi=2.7):
-    """rotation on which r2q takes `largest diagonal` branch b with sign test `add`"""
+def rot_branch(rng, b, add, lo=2.2, hi=2.95):
+    """rotation with trace <= 0 (angle above 120 deg) on which r2q takes `largest diagonal` branch b with sign test `add`"""
     u = rng.normal(size=3) * 0.3
     u[b] = 1.0
     u /= np.linalg.norm(u)
@@ -120,11 +120,13 @@ def hamilton(p, q):
 
 def r2q_rotations(rng):
     """directed inputs for the r2q model correspondence: every branch x sign, rotations within 1e-9 of 0 and of pi
-    (where the branch changes), exact special rotations; never with |k| inside (50 eps, 200 eps) -- there model and
-    implementation may legitimately differ by one rounding of the norm"""
+    (where the branch changes), exact special rotations, both sides of trace = 0 (the eye() exit of r2q is not reachable for rotation matrices since /repo 1cdf860)"""
     r = rng.random()
-    if r < 0.3:
+    if r < 0.2:
         R = rot_branch(rng, int(rng.integers(3)), bool(rng.integers(2)))
+    elif r < 0.3:
+        # around the switch trace = 0 (120 deg), but not within 1e-9 of it (model and implementation may round the trace differently there)
+        R = rot_from_axis_angle(rand_unit(rng), 2 * math.pi / 3 + log_uniform(rng, 1e-8, 0.3) * rng.choice([-1.0, 1.0]))
     elif r < 0.45:
         R = rot_from_axis_angle(rand_unit(rng), math.pi - log_uniform(rng, 1e-12, 1e-2) * rng.choice([0, 1, 1, 1]))
     elif r < 0.6:
@@ -217,6 +219,11 @@ def build(ctx):
             smp = (lambda b, add: lambda rng: [np.block([[rot_branch(rng, b, add), rng.normal(size=(3, 1))], [np.array([[0, 0, 0, 1.0]])]])])(b, add)
             T('tr_UDQ_vec_' + nm, [('X', 'M44')], lambda X: UnitDualQuaternion(se3(X)).vec, sampler=smp, alloc=True, tol=1e-10)
             T('tr_r2q_' + nm, [('X', 'M33')], lambda X: base.r2q(X), sampler=(lambda b, add: lambda rng: [rot_branch(rng, b, add)])(b, add), tol=1e-10)
+    # the trace > 0 path of r2q (angle below 120 deg): vector part from the skew part, scalar part from the vector part
+    s_pos = lambda rng: rot_from_axis_angle(rand_unit(rng), rng.uniform(0.2, 1.9))      # noqa: E731
+    T('tr_UDQ_vec_pos', [('X', 'M44')], lambda X: UnitDualQuaternion(se3(X)).vec,
+      sampler=lambda rng: [np.block([[s_pos(rng), rng.normal(size=(3, 1))], [np.array([[0, 0, 0, 1.0]])]])], alloc=True, tol=1e-10)
+    T('tr_r2q_pos', [('X', 'M33')], lambda X: base.r2q(X), sampler=lambda rng: [s_pos(rng)], tol=1e-10)
     T('tr_UDQ_SE3', [('a', 'V8')], lambda a: mkUDQ(a).SE3().A, sampler=lambda rng: [s_udq_pair(rng)], alloc=True, tol=1e-10)
     T('tr_UDQ_act', [('a', 'V8'), ('p', 'V3')], lambda a, p: mkUDQ(a) * p, sampler=lambda rng: [s_udq_pair(rng), rng.normal(size=3)], tol=1e-10)
     T('tr_UDQ_mul', [('a', 'V8'), ('b', 'V8')], lambda a, b: (mkUDQ(a) * mkUDQ(b)).vec, sampler=lambda rng: [s_udq_pair(rng), s_udq_pair(rng)], tol=1e-10)
